@@ -16,6 +16,9 @@ func propC11(c *Ctx, r *Report) {
 		"no dropped diagnostic (E10): no call on the parse / lower / validate path discards an error or *ParseError result")
 	c.runErrflow(r, inPkgs("wgsl", "ir", "naga", "internal/registry"), droppedErrExceptions)
 	r.floor("errflow.parser-functions", 40)
+	r.Clauses = append(r.Clauses, "block-scoped local names in dependency ordering (E7): the function of the parser's dependency collector that walks the statements of a block gives them a set of local names of its own, so a name declared inside a block does not hide a module-scope declaration after the block (acceptance must not depend on declaration order)")
+	c.runDepBlockScope(r, "scope.depblock")
+	r.floor("scope.depblock", 1)
 	r.Clauses = append(r.Clauses, "token characters (E20): in the lexer's punctuation scanner the characters consumed on the path to every addToken(K) spell exactly the WGSL token K (a delimiter or semicolon can only be diagnosed as missing if the tokens around it are cut at the right places)")
 	c.runLexerTokenChars(r, "lex.tokenchars")
 	r.floor("lex.tokenchars", 40)
